@@ -47,11 +47,22 @@ def eval_list(fl, nraw, seed):
     return y.tobytes() + d.tobytes()
 
 
-def make_spline(rng):
-    g1 = [(0.0, 1.0, 7)]
-    g2 = [(0.0, 1.0, 5), (-1.0, 1.0, 6)]
-    return SplineSetEvaluator([0.7, 1.3], [[0], [1, 2]], [g1, g2],
-                              [rng.normal(size=(7 + 2,)), rng.normal(size=(5 + 2, 6 + 2))], const=0.25)
+# index layouts of a spline-set evaluator (Registry!SplineShapes): the ORDER inside a term pairs feature columns with
+# spline axes and is part of the object
+SPLINE_SHAPES = {"asc": [[0], [1, 2]], "desc": [[1], [2, 0]], "single": [[2]], "perm3": [[2, 0, 1]], "both": [[0], [0, 1], [1, 0]]}
+AXIS = {0: (0.0, 1.0, 7), 1: (0.0, 1.0, 5), 2: (-1.0, 1.0, 6)}     # axis grid of feature f
+
+
+def make_spline(rng, shape="asc"):
+    ind_sets = SPLINE_SHAPES[shape]
+    grids = [[AXIS[f] for f in t] for t in ind_sets]
+    coefs = [rng.normal(size=tuple(AXIS[f][2] + 2 for f in t)) for t in ind_sets]
+    return SplineSetEvaluator(list(0.7 + 0.3 * np.arange(len(ind_sets))), [list(t) for t in ind_sets], grids, coefs, const=0.25)
+
+
+def spline_shape_of(ev):
+    got = [[int(i) for i in t] for t in ev.ind_sets]
+    return next((k for k, v in SPLINE_SHAPES.items() if v == got), "?" + repr(got))
 
 
 def eval_spline(ev, seed):
@@ -100,24 +111,24 @@ class Replayer:
             try:
                 if name == "make":
                     kind, cls = op[1], op[2]
-                    c = getattr(td, cls)
+                    c = getattr(td, cls) if kind != "spline" else None
                     if kind == "list":
                         obj, aux = make_list(c, rng)
                         ref_eval = eval_list(obj, aux, self.seed)
                     elif kind == "spline":
-                        obj = make_spline(rng)
+                        obj = make_spline(rng, cls)
                         ref_eval = eval_spline(obj, self.seed)
                     else:
                         obj, aux = make_model(c, rng, step + len(hist))
                         ref_eval = eval_model(obj, aux, self.seed)
                 elif name == "renew":
                     # same kind and class, new parameters (the next dump overwrites the same path)
-                    c = getattr(td, cls)
+                    c = getattr(td, cls) if kind != "spline" else None
                     if kind == "list":
                         obj, aux = make_list(c, rng)
                         ref_eval = eval_list(obj, aux, self.seed)
                     elif kind == "spline":
-                        obj = make_spline(rng)
+                        obj = make_spline(rng, cls)
                         ref_eval = eval_spline(obj, self.seed)
                     else:
                         obj, aux = make_model(c, rng, step + len(hist) + 7)
@@ -178,7 +189,7 @@ class Replayer:
                     pc = type(obj.feat_list[0]).__name__ if isinstance(obj, td.FeatureList) else "?"
                     same = isinstance(obj, td.FeatureList) and eval_list(obj, aux, self.seed) == ref_eval
                 elif kind == "spline":
-                    pc = cls
+                    pc = spline_shape_of(obj) if isinstance(obj, SplineSetEvaluator) else "?"
                     same = isinstance(obj, SplineSetEvaluator) and eval_spline(obj, self.seed) == ref_eval
                 else:
                     pc = cls
@@ -236,7 +247,7 @@ def main():
     d = stage_spec([])
     try:
         write_live_module("Live_Registry", {
-            "LiveClasses": set(classes), "LiveRegCodes": set(reg.keys()),
+            "LiveClasses": set(classes), "LiveRegCodes": set(reg.keys()), "LiveSplineShapes": set(SPLINE_SHAPES),
             "LiveReg": RawTLA("(" + " @@ ".join("%s :> %s" % (to_tla(k), to_tla(v)) for k, v in reg.items()) + ")"),
             "LiveWrites": RawTLA("(" + " @@ ".join("%s :> %s" % (to_tla(k), to_tla(v)) for k, v in writes.items()) + ")"),
         }, d)
@@ -245,7 +256,7 @@ def main():
         maxc = 2 if ck.tier == "quick" else 3
         with open(os.path.join(d, "MC_Registry.cfg"), "w") as f:
             f.write("SPECIFICATION Spec\nCONSTANTS\n Classes <- LiveClasses\n RegCodes <- LiveRegCodes\n Reg <- LiveReg\n"
-                    " Writes <- LiveWrites\n MaxCycles = %d\nINVARIANT RegistryConsistent\nINVARIANT Emit\nPROPERTY RoundTrip\n"
+                    " Writes <- LiveWrites\n SplineShapes <- LiveSplineShapes\n MaxCycles = %d\nINVARIANT RegistryConsistent\nINVARIANT Emit\nPROPERTY RoundTrip\n"
                     "PROPERTY UnknownCodeRejected\nPROPERTY BadFormatRejected\nPROPERTY SoundLoadSucceeds\n" % maxc)
         r = run_tlc("MC_Registry", os.path.join(d, "MC_Registry.cfg"), workers=8, specdir=d, timeout=3000, coverage=True)
         first = r
@@ -276,15 +287,15 @@ def main():
     for h in hists:
         kind, cls = h[0][1], h[0][2]
         shape = tuple(tuple(o) for o in h[1:])
-        key = (kind, cls if kind == "list" else "*", shape)
+        key = (kind, cls if kind in ("list", "spline") else "*", shape)
         if key in seen:
             continue
         seen.add(key)
         chosen.append(h)
     if ck.tier == "quick":
         # every class with every list behaviour is ~ 21 x 100; cap deterministically
-        lists = [h for h in chosen if h[0][1] == "list"]
-        others = [h for h in chosen if h[0][1] != "list"]
+        lists = [h for h in chosen if h[0][1] in ("list", "spline")]
+        others = [h for h in chosen if h[0][1] not in ("list", "spline")]
         import random
         rnd = random.Random(ck.seed)
         rnd.shuffle(others)
@@ -310,11 +321,11 @@ def main():
             for step, (a, b) in enumerate(zip(proj, exp)):
                 if a != b:
                     what = "accepted-but-should-reject" if b == "error" else ("rejected-own-dump" if a == "error" else "wrong-class")
-                    ck.violation("%s:%s:%s:%s" % (kind, cls if kind == "list" else "*", h[step][0], what),
+                    ck.violation("%s:%s:%s:%s" % (kind, cls if kind in ("list", "spline") else "*", h[step][0], what),
                                  {"history": h, "step": step, "impl": a, "spec": b}, replay={"hist": h})
                     break
             for step, msg in problems:
-                ck.violation("%s:%s:%s" % (kind, cls if kind == "list" else "*", msg.split(":")[0].split("(")[0].strip()),
+                ck.violation("%s:%s:%s" % (kind, cls if kind in ("list", "spline") else "*", msg.split(":")[0].split("(")[0].strip()),
                              {"history": h, "step": step, "msg": msg}, replay={"hist": h})
             if len(ck.samples) < 4 and nontrivial:
                 ck.sample({"history": h, "impl_projection": proj, "spec_projection": exp})
